@@ -359,6 +359,7 @@ func clFindPathHelps(c *Ctx) {
 	p := c.P
 	fn := p.Func("skiplist", "Skiplist", "findPath")
 	fi := p.Info(fn)
+	clFindPathRecordsEachLevel(c)
 	getNext := p.Func("skiplist", "Node", "getNext")
 	help := p.Func("skiplist", "Skiplist", "helpDelete")
 	compareFn := p.Func("skiplist", "", "compare")
@@ -679,5 +680,42 @@ func clAccessorAgreement(c *Ctx) {
 			}
 		}
 		c.Check(okPrefix, get, nil, "NodeMM is a prefix of Node (the cast in allocNode is layout-compatible)", "fields of Node and NodeMM diverge: malloc'ed nodes are accessed with the wrong offsets")
+	}
+}
+
+// findPath records predecessor/successor of level i from the walk of level i:
+// every store into buf.preds / buf.succs is indexed by the level variable the
+// walk (getNext(level)) uses, never by a derived index.
+func clFindPathRecordsEachLevel(c *Ctx) {
+	p := c.P
+	fn := p.Func("skiplist", "Skiplist", "findPath")
+	fi := p.Info(fn)
+	getNext := p.Func("skiplist", "Node", "getNext")
+	fPreds := p.Field("skiplist", "ActionBuffer", "preds")
+	fSuccs := p.Field("skiplist", "ActionBuffer", "succs")
+	levelVars := map[ssa.Value]bool{}
+	for _, s := range p.CallSites(fn, getNext) {
+		levelVars[strip(callOf(s).Args[1])] = true
+	}
+	n := 0
+	for _, in := range fi.Instrs {
+		st, ok := in.(*ssa.Store)
+		if !ok {
+			continue
+		}
+		ia, ok := st.Addr.(*ssa.IndexAddr)
+		if !ok {
+			continue
+		}
+		f := lastField(ia.X)
+		if f != fPreds && f != fSuccs {
+			continue
+		}
+		n++
+		c.Check(levelVars[strip(ia.Index)], fn, st, "path buffer slot of a level is written from the walk of that level",
+			"a slot of another level is filled without walking that level (e.g. copied down from an index level on an exact match): with a key-only comparator several versions compare equal, and the search lands on whichever is tallest instead of the first one at level 0")
+	}
+	if n < 2 {
+		undecidedf("findPath: stores into the path buffer not found")
 	}
 }
